@@ -85,9 +85,77 @@ def rename_locals(src):
     return ast.unparse(tree) + '\n'
 
 
+def _unique_defs(root):
+    """name -> (params, is_method) for functions defined exactly once in the
+    package, without *args/**kwargs/keyword-only/positional-only parameters."""
+    import ast
+    seen = {}
+    for dp, dn, fn in os.walk(root):
+        for f in fn:
+            if not f.endswith('.py'):
+                continue
+            with open(os.path.join(dp, f)) as fh:
+                tree = ast.parse(fh.read())
+            classes = [c for c in ast.walk(tree) if isinstance(c, ast.ClassDef)]
+            methods = {id(m) for c in classes for m in c.body
+                       if isinstance(m, ast.FunctionDef)}
+            for n in ast.walk(tree):
+                if isinstance(n, ast.FunctionDef):
+                    a = n.args
+                    ok = not (a.vararg or a.kwarg or a.kwonlyargs or
+                              a.posonlyargs or n.decorator_list)
+                    seen.setdefault(n.name, []).append(
+                        ([x.arg for x in a.args], id(n) in methods, ok))
+                elif isinstance(n, (ast.Assign, ast.ClassDef)):
+                    # a name that is also a variable/class is ambiguous
+                    for t in getattr(n, 'targets', []):
+                        if isinstance(t, ast.Name):
+                            seen.setdefault(t.id, []).append((None, False, False))
+                    if isinstance(n, ast.ClassDef):
+                        seen.setdefault(n.name, []).append((None, False, False))
+    return {k: v[0] for k, v in seen.items() if len(v) == 1 and v[0][2]
+            and not k.startswith('__')}
+
+
+def keyword_calls(src, defs):
+    """Turn the positional arguments (after the first) of calls to functions
+    that are defined exactly once in the package into keyword arguments."""
+    import ast
+    tree = ast.parse(src)
+    changed = False
+    for n in ast.walk(tree):
+        if not isinstance(n, ast.Call) or any(
+                isinstance(a, ast.Starred) for a in n.args) or any(
+                k.arg is None for k in n.keywords):
+            continue
+        name, shift = None, 0
+        if isinstance(n.func, ast.Name):
+            name = n.func.id
+        elif isinstance(n.func, ast.Attribute) and isinstance(
+                n.func.value, ast.Name) and n.func.value.id == 'self':
+            name, shift = n.func.attr, 1
+        d = defs.get(name)
+        if d is None or d[1] != bool(shift):
+            continue
+        params = d[0][shift:]
+        if len(n.args) < 2 or len(n.args) > len(params):
+            continue
+        used = {k.arg for k in n.keywords}
+        names = params[1:len(n.args)]
+        if used & set(names):
+            continue
+        new_kw = [ast.keyword(arg=p_, value=a)
+                  for p_, a in zip(names, n.args[1:])]
+        n.args = n.args[:1]
+        n.keywords = new_kw + n.keywords
+        changed = True
+    return ast.unparse(tree) + '\n' if changed else src
+
+
 def _transform(dst, how):
     """Whole-tree behaviour-preserving rewrites."""
     import ast
+    defs = _unique_defs(dst) if how == 'kwcalls' else None
     for dp, dn, fn in os.walk(dst):
         for f in fn:
             if not f.endswith('.py'):
@@ -101,6 +169,10 @@ def _transform(dst, how):
                 new = ast.unparse(ast.parse(src)) + '\n'
             elif how == 'rename':
                 new = rename_locals(src)
+            elif how == 'alias':
+                new = rename_import_aliases(src)
+            elif how == 'kwcalls':
+                new = keyword_calls(src, defs)
             elif how == 'shift':
                 # push every line down (line numbers change, nothing else)
                 new = '# moved\n' * 7 + src if not src.startswith('#!') else \
@@ -110,6 +182,38 @@ def _transform(dst, how):
                 raise ValueError(how)
             with open(path, 'w') as fh:
                 fh.write(new)
+
+
+def rename_import_aliases(src):
+    """`import numpy as np` -> `import numpy as np_al9` (and every use): a
+    behaviour-preserving edit that defeats rules matching `np.` as text."""
+    import ast
+    tree = ast.parse(src)
+    aliases = {}
+    for n in tree.body:
+        if isinstance(n, ast.Import):
+            for a in n.names:
+                if a.asname and not a.asname.startswith('_'):
+                    aliases[a.asname] = a.asname + '_al9'
+    if not aliases:
+        return src
+    bound = set()
+    for n in ast.walk(tree):
+        if isinstance(n, ast.Name) and isinstance(n.ctx, (ast.Store, ast.Del)):
+            bound.add(n.id)
+        elif isinstance(n, ast.arg):
+            bound.add(n.arg)
+        elif isinstance(n, (ast.FunctionDef, ast.ClassDef)):
+            bound.add(n.name)
+    aliases = {k: v for k, v in aliases.items() if k not in bound}
+    for n in ast.walk(tree):
+        if isinstance(n, ast.Import):
+            for a in n.names:
+                if a.asname in aliases:
+                    a.asname = aliases[a.asname]
+        elif isinstance(n, ast.Name) and n.id in aliases:
+            n.id = aliases[n.id]
+    return ast.unparse(tree) + '\n'
 
 
 def make_copy(repo, edits, transform=None):
@@ -198,7 +302,7 @@ def run_variant(v, repo):
 def run_for_property(prop, repo, seed=0, jobs=None):
     variants = [v for v in load_variants() if v['property'] == prop]
     # two whole-tree behaviour-preserving rewrites for every property
-    for how in ('unparse', 'shift', 'rename'):
+    for how in ('unparse', 'shift', 'rename', 'alias', 'kwcalls'):
         variants.append({'id': '%s-benign-%s-all' % (prop.lower(), how),
                          'property': prop, 'kind': 'benign', 'edits': [],
                          'transform': how, 'expect': None, 'clears': None,
